@@ -270,25 +270,30 @@ def judge_sample(pre: dict, sample: dict, size) -> list:
     return out
 
 
-def judge_individual_sample(pre: dict, col, current_map: list, sample: list, size) -> list:
-    """current_map / sample: [(id, first, last)].  An individual *exists* when the table has rows with
-    that id and [first, last] are exactly the positions of those rows."""
+def judge_individual_sample(pre: dict, col, current_map: list, sample: list, size, notes=None) -> list:
+    """current_map / sample: [(id, first, last)].  An individual *exists* when [first, last] are exactly the
+    positions of all the rows of one individual of the table (that range is what is handed to the engine).
+    The id under which the map lists it is only a name: it differs from the table after the id column itself
+    was rescaled, which is noted, not judged."""
     out = []
-    truth = {(v, a, b) for v, a, b, _, ok in individuals(pre, col) if ok}
+    truth = {(a, b): v for v, a, b, _, ok in individuals(pre, col) if ok}
     want = len(current_map) if size is None else size
     if len(sample) != want:
         out.append(('bootstrap-individual-sample-size', f'{len(sample)} individuals returned, {want} requested'))
-    stale = set(current_map) != truth
-    bad = [x for x in sample if x not in truth]
+    stale = {(a, b) for _, a, b in current_map} != set(truth)
+    bad = [x for x in sample if (x[1], x[2]) not in truth]
+    if notes is not None and any((x[1], x[2]) in truth and truth[(x[1], x[2])] != x[0] for x in sample):
+        notes.append('bootstrap_individual_listed_under_former_id')
     if bad:
+        shown = sorted((v, a, b) for (a, b), v in truth.items())[:8]
         if stale and all(x in set(current_map) for x in bad):
             ids = set(column(pre, col))
             gone = [x for x in bad if x[0] not in ids]
             out.append(('bootstrap-individual-from-out-of-date-map',
                         f'{len(bad)} sampled individual(s) taken from an individual map that no longer describes the table '
-                        f'({len(gone)} of them have no row left), e.g. {bad[0]}; table individuals {sorted(truth)[:8]}'))
+                        f'({len(gone)} of them have no row left), e.g. {bad[0]}; table individuals {shown}'))
         else:
-            out.append(('bootstrap-individual-not-in-table', f'{len(bad)} sampled individual(s) do not exist, e.g. {bad[0]}; table individuals {sorted(truth)[:8]}'))
+            out.append(('bootstrap-individual-not-in-table', f'{len(bad)} sampled individual(s) do not exist, e.g. {bad[0]}; table individuals {shown}'))
     return out
 
 
